@@ -257,6 +257,28 @@ func genRoots(fam []string, p int64) generator {
 		genPairs(r, emit, fam, fam, np)
 		genPairs(r, emit, sqrtCtors, cubeCtors, np/2)
 		genSameRadicand(emit)
+		// radicands thousands of groups away from 1, in both directions (only the statement is evaluated on these)
+		for i, v := range allVers {
+			k := []int64{8200, 8196, 8210}[i]
+			if P.Int64() == 3 {
+				k = []int64{12300, 12295, 12290}[i]
+			}
+			huge := new(big.Int).Exp(big.NewInt(10), big.NewInt(k), nil)
+			small := big.NewInt(int64(r.Range(2, 97)))
+			emit(Case{Ver: v, Op: "Deep" + fam[3], Args: toks{small.String(), huge.String(), "12"}})
+			if i == 0 {
+				emit(Case{Ver: v, Op: "Deep" + fam[2], Args: toks{new(big.Int).Mul(huge, small).String(), "1", "12"}})
+			}
+		}
+		// a jump of ten thousand positions and more on a Number that has computed its first block
+		for i, v := range allVers {
+			far := []int{10150, 10000, 12345}[i]
+			if P.Int64() == 3 {
+				far = far/4 + 8000 // cube roots cost more per digit
+			}
+			emit(Case{Ver: v, Op: "Far" + fam[2], Args: toks{itoa(r.Range(2, 99)), "1", "40", "1", itoa(far)}})
+			emit(Case{Ver: v, Op: "Far" + fam[3], Args: toks{itoa(r.Range(2, 99)), itoa(r.Range(2, 9)), "130", "1", itoa(far + 100)}})
+		}
 		// different Numbers of this family computed at the same time by different goroutines
 		genConcRootsOf(r, emit, np, fam[2], 8)
 		genConcRootsOf(r, emit, np, fam[3], 8)
@@ -466,6 +488,13 @@ func genC03(tier string, r *Rng, emit func(Case)) {
 		}
 	}
 	genSameRadicand(emit)
+	// the last legal position of a terminating root that has computed nothing yet (and after its first digit)
+	for i, v := range allVers {
+		for k, ctor := range []string{"SqrtBigInt", "CubeRootBigInt", "SqrtRat", "CubeRootRat"} {
+			rad := []toks{{"100489", "1"}, {"35223040952", "1"}, {"1", "4"}, {"1", "8"}}[k]
+			emit(Case{Ver: v, Op: "Far" + ctor, Args: toks{rad[0], rad[1], "12", itoa((i + k) % 2), itoa(MaxInt - (i+k)%3)}})
+		}
+	}
 }
 
 func genC13(tier string, r *Rng, emit func(Case)) {
@@ -647,6 +676,22 @@ func init() {
 			cc := *cs
 			cc.Op = c
 			return runRoot(&cc)
+		}
+	}
+	// Far<ctor> num den depth first far: (after the first digit when first = 1) a position far beyond anything computed
+	// is asked for, then the digits are observed as usual. far = MaxInt only on terminating roots.
+	for _, c := range append(append([]string{"FromBigRat"}, sqrtCtors...), cubeCtors...) {
+		c := c
+		ops["Far"+c] = func(cs *Case) []string {
+			a := &cur{t: cs.Args}
+			num, den := a.big(), a.big()
+			depth, first, far := a.int(), a.int(), a.int()
+			x := makeRoot(cs.Ver, c, num, den)
+			if first == 1 {
+				x.At(0)
+			}
+			x.At(far)
+			return observeDigits(x, depth)
 		}
 	}
 	ops["Pair"] = runPair
